@@ -138,7 +138,9 @@ def render_schemas(pool):
                 from lxml import etree
                 XS = 'http://www.w3.org/2001/XMLSchema'
                 holders = []
-                names = sorted(pool)
+                # (in the order the models were made: a type that has no name of its own is named after the first class that is
+                #  declared with a member of it, and in a program that is the earliest declaration, not the alphabetically first)
+                names = list(pool)
                 for i, n in enumerate(names):
                     holders.append(type('H%s' % n, (ComplexModel,), {'__namespace__': 'urn:vf:h', 'f': pool[n]}))
                 # one rendering per model: distinct models may legitimately share a
@@ -385,8 +387,14 @@ def do_step(W, step):
         if not kw:
             kw = {'nillable': False}
             g = kw
-        W.log.append((step, 'prim', p, sorted(kw), 'lifted:%s' % ','.join(lifted)))
-        new = W.pool[p](**kw)
+        # attributes that describe how the value is stored (they end up in the shared-looking sqla_column_args pair)
+        storage = {}
+        if rng.random() < .2:
+            storage = rng.choice(({'pk': True}, {'primary_key': True}, {'autoincrement': True}, {'onupdate': 'CASCADE'}, {'server_default': '0'},
+                                  {'index': True}, {'unique': True}, {'pk': True, 'autoincrement': True}))
+            W.R.count('storage_attributes_requested')
+        W.log.append((step, 'prim', p, sorted(kw), 'lifted:%s' % ','.join(lifted), sorted(storage)))
+        new = W.pool[p](**dict(kw, **storage))
         name = W.fresh('P')
         eff = dict(W.facets[p], **dict(f, **({'nillable': g['nillable']} if 'nillable' in g else {})))
         for k in lifted:
